@@ -21,6 +21,7 @@ RULE = ("histories of 4..16 events over {connect, authenticated (with the passiv
         "sent<=>confirmed, re-offer of unconfirmed keys at the next login, availability of every offered key until consumed, single use, "
         "and the identity / registration id / signed-prekey signature of every upload (Curve.verifySignature). distinct = distinct history.")
 RULE += (" The corpus histories also with the library's loggers at WARNING / DEBUG / CRITICAL / INFO.")
+RULE += (" Event serverIqSameId (the server's own ping under the id of a pending upload); corpus histories with an unconfirmed upload followed by a login below the regeneration threshold.")
 ASSUMPTIONS = ["python-axolotl's session builder removes the one-time prekey a first message names (exercised with real PreKeyWhisperMessages)",
                "key ids stay far below the 24-bit wrap-around"]
 
@@ -53,6 +54,13 @@ def cases(chk):
     ]
     for h in corpus:
         yield "history", {"events": h}
+    # an upload left unconfirmed, then a login at which the key count is below the regeneration threshold (most of the unconfirmed keys consumed, or a
+    # batch smaller than the threshold): the login offers the fresh batch AND what was still unconfirmed
+    for h in (["connect", "authed", "consume:0", "consume:0", "consume:0", "disconnected", "connect", "authed", "uploadResult:0", "disconnected", "connect", "authed"],
+              ["connect", "authed", "consume:1", "consume:1", "consume:0", "restart", "connect", "authed", "uploadError:0", "disconnected", "connect", "authed", "uploadResult:0"]):
+        yield "history", {"events": h}
+    yield "history", {"events": ["connect", "authed", "disconnected", "restart", "connect", "authed", "uploadResult:0", "disconnected", "connect", "authed"], "batch": 3, "threshold": 10}
+    yield "history", {"events": ["connect", "authed", "uploadError:0", "disconnected", "connect", "authed", "disconnected", "connect", "authed", "uploadResult:0"], "batch": 2, "threshold": 9}
     # a server request (ping) carrying the id of an upload that is still unanswered, then the connection is lost: the upload stays unconfirmed
     for h in (["connect", "authed", "serverIqSameId:0", "disconnected", "connect", "authed", "uploadResult:0", "disconnected", "connect", "authed"],
               ["connect", "authed", "serverIqSameId:0", "restart", "connect", "authed", "consume:0", "uploadResult:0"],
